@@ -1,6 +1,39 @@
-"""C06 — decided on the session machine."""
+"""C06 — decided on the session machine, plus a store that keeps entries beyond the session's deadlines."""
+import json
+
+from lib import vf
+from lib.machine import authenticated
 from lib.props import _mach
 
 
 def run(ctx):
     _mach.run_modes(ctx, ['history', 'conc'], ['c06'])
+    # In the machine (and in a Redis whose clock agrees with wonderwall's) an entry expires exactly at the session's end, so there
+    # the expiry, not the validation, is what refuses an ended session. Here the store keeps the entry (lagging expiry / clock skew):
+    # every endpoint in every mode must still refuse an ended session (401 on the session endpoints) and must not refresh or serve
+    # an inactive one (readable as inactive on the info endpoint only).
+    pre = ctx.path("storelag")
+    out, dt = vf.run_driver(["storelag", "-out", pre, "-seed", str(ctx.seed), "-tier", ctx.tier])
+    ctx.timings["storelag"] = round(dt, 2)
+    n = 0
+    for line in open(pre + ".obs"):
+        d = json.loads(line)
+        n += 1
+        if not d["entry_still_in_store"]:
+            continue
+        o, ep = d["outcome"], d["endpoint"]
+        served = authenticated(o) or (ep in ("f",) and o[:2] == [2, 204]) or (ep == "r" and o[0] == 3)
+        if d["after"] == "end":
+            if served or (ep == "i" and o[0] == 3):
+                ctx.violation("c06-accepted-after-end", "session accepted / readable after its maximum lifetime (the store still holds the entry)", d)
+            elif ep in ("i", "r") and o[:2] != [2, 401]:
+                ctx.violation("c06-ended-not-401", "ended session not answered 401 on a session endpoint", d)
+        else:
+            if served:
+                ctx.violation("c06-accepted-after-inactivity", "session accepted / refreshed after the inactivity timeout (the store still holds the entry)", d)
+            if ep == "i" and not (o[0] == 3 and o[3] == 0):
+                ctx.violation("c06-inactive-info", "inactive session not readable as inactive on the info endpoint", d)
+    ctx.evals += n
+    ctx.nontrivial += n
+    ctx.extra["lagging_store_requests"] = n
+    ctx.rule += "; plus %d requests {mode} x {inactivity} x {token lifetime} x {after end, after inactivity} x {every endpoint incl. the SSO proxy} against a store that keeps the entry beyond the deadline" % n
